@@ -1,10 +1,53 @@
-/- driver for C08 : to be filled in (stub keeps Main.lean compiling) -/
+/- driver for C08: Float instantiation of Model/Strategy (the ten DE strategies), of the reference / mystic
+Nelder-Mead loops (Model/RefFmin) and of Powell's direction-set bookkeeping (Model/Powell); the shared
+solver commands `de`, `nm`, `ctl` are forwarded to Drv/SolverDrv -/
 import MysticVerif.Basic.Proto
+import MysticVerif.Model.Dsl
+import MysticVerif.Model.Strategy
+import MysticVerif.Drv.SolverDrv
 
 namespace MysticVerif.DrvC08
-open MysticVerif
+open MysticVerif MysticVerif.Strategy
+
+def parseName : String → Option Name
+  | "Best1Exp" => some .Best1Exp | "Best1Bin" => some .Best1Bin | "Rand1Exp" => some .Rand1Exp
+  | "RandToBest1Exp" => some .RandToBest1Exp | "Best2Exp" => some .Best2Exp | "Rand2Exp" => some .Rand2Exp
+  | "Rand1Bin" => some .Rand1Bin | "RandToBest1Bin" => some .RandToBest1Bin | "Best2Bin" => some .Best2Bin
+  | "Rand2Bin" => some .Rand2Bin
+  | _ => none
+
+def asFloatss? (v : Val) : Option (List (List Float)) := do
+  let l ← v.asList?
+  l.mapM Val.asFloats?
+
+/-- `strat (name N) (map b) (cand c) (np n) (nd d) (F f) (CR f) (pop ((..)..)) (best (..)) (trial ((..)..))
+          (ps (..)) (n k) (us (..))` -/
+def handleStrat (args : List Val) : String := Id.run do
+  let some nm := (kw? args "name").bind Val.asSym? |>.bind parseName | return "bad-op"
+  let some mp := (kw? args "map").bind Val.asBool? | return "bad-op"
+  let some cand := (kw? args "cand").bind Val.asNat? | return "bad-op"
+  let some np := (kw? args "np").bind Val.asNat? | return "bad-op"
+  let some nd := (kw? args "nd").bind Val.asNat? | return "bad-op"
+  let some f := (kw? args "F").bind Val.asFloat? | return "bad-op"
+  let some cr := (kw? args "CR").bind Val.asFloat? | return "bad-op"
+  let some pop := (kw? args "pop").bind asFloatss? | return "bad-op"
+  let some best := (kw? args "best").bind Val.asFloats? | return "bad-op"
+  let some trial := (kw? args "trial").bind asFloatss? | return "bad-op"
+  let some ps := (kw? args "ps").bind Val.asNats? | return "bad-op"
+  let some n0 := (kw? args "n").bind Val.asNat? | return "bad-op"
+  let some us := (kw? args "us").bind Val.asFloats? | return "bad-op"
+  let I : Inst Float := { pop := pop, best := best, scale := f, prob := cr, nDim := nd, nPop := np,
+                          mapSolver := mp, trial := trial }
+  let r := trialOf nm I cand ps n0 us
+  let I' := call nm I cand ps n0 us
+  let rs := getRandomCandidates np cand (ps.take nm.kind.ncand)
+  let cross := match nm.cross with | .exp => "exp" | .bin => "bin"
+  return s!"ok trial={pFss I'.trial} rs={pNs rs} used={r.2} cross={cross} namedbin={pB nm.namedBin}"
 
 def handle : Handler
+  | .sym "strat" :: args => handleStrat args
+  | .sym "de" :: args => SolverDrv.handle (.sym "de" :: args)
+  | .sym "nm" :: args => SolverDrv.handle (.sym "nm" :: args)
   | _ => "bad-op"
 
 end MysticVerif.DrvC08
